@@ -1197,7 +1197,7 @@ int _vnadata_load_touchstone(vnadata_internal_t *vdip, FILE *fp,
 		    tps.tps_filename, tps.tps_line);
 		goto out;
 	    }
-	    if (tps.u.tps_double <= 0.0) {
+	    if (!(tps.u.tps_double > 0.0)) {	/* also a NaN */
 		_vnadata_error(vdip, VNAERR_SYNTAX, "%s (line %d) error: "
 			"reference impedance must be positive",
 		    tps.tps_filename, tps.tps_line);
@@ -1348,7 +1348,7 @@ int _vnadata_load_touchstone(vnadata_internal_t *vdip, FILE *fp,
 			tps.tps_filename, tps.tps_line, tps.tps_ports);
 		    goto out;
 		}
-		if (tps.u.tps_double <= 0.0) {
+		if (!(tps.u.tps_double > 0.0)) {	/* also a NaN */
 		    _vnadata_error(vdip, VNAERR_SYNTAX, "%s (line %d) error: "
 			    "reference impedance must be positive",
 			tps.tps_filename, tps.tps_line);
